@@ -17,17 +17,18 @@ use std::io::Write;
 use std::panic::{catch_unwind, AssertUnwindSafe};
 
 // the Debug text of the largest state of the unchanged tree (three active mappings of the longest built-in) is below 1 500 characters
-const MAX_STATE_TEXT: usize = 5000;
+const MAX_STATE_TEXT: usize = 2500;
 
 struct Job { id: String, layout: Option<Layout>, load_err: String, keys: Vec<KeyCode>, maxheld: usize }
 
 struct Tabled {
   hdr: Value,
-  lines: Vec<Value>,   // state lines with LOCAL ids (1-based); rebased when the shard is assembled
+  lines: Vec<String>,  // finished state lines (ids already positions in the shard)
   states: usize, transitions: usize, panics: usize, truncated: bool
 }
 
-fn tabulate_one(job: &Job, maxstates: usize) -> Tabled {
+fn tabulate_one(job: &Job, maxstates: usize, total: &std::sync::atomic::AtomicUsize, budget: usize, base: usize, li: usize) -> Tabled {
+  use std::sync::atomic::Ordering::Relaxed;
   let keys = &job.keys;
   let evlist: Vec<Event> = keys.iter().flat_map(|k| vec![Pressed(*k), Released(*k)]).collect();
   let mk_hdr = |layout: Value, count: usize, truncated: bool, panic: String, panics: Vec<Value>| json!({
@@ -47,12 +48,19 @@ fn tabulate_one(job: &Job, maxstates: usize) -> Tabled {
     Ok(m) => m,
     Err(e) => return Tabled { hdr: mk_hdr(jlayout(layout), 0, false, panic_msg(e), vec![]), lines: vec![], states: 0, transitions: 0, panics: 1, truncated: false }
   };
-  let mut ids: HashMap<String, usize> = HashMap::new();
+  // states are identified by a 128-bit hash of their Debug text (the text itself would dominate memory when a change makes states grow)
+  fn h128(s: &str) -> (u64, u64) {
+    use std::hash::{Hash, Hasher};
+    let mut a = std::collections::hash_map::DefaultHasher::new(); s.hash(&mut a);
+    let mut b = std::collections::hash_map::DefaultHasher::new(); (s, 0x9e3779b97f4a7c15u64).hash(&mut b);
+    (a.finish(), b.finish())
+  }
+  let mut ids: HashMap<(u64, u64), usize> = HashMap::new();
   let mut states: Vec<VerifState> = vec![];
   let mut seen: HashSet<(usize, BTreeSet<KeyCode>)> = HashSet::new();
   let mut q: VecDeque<(usize, BTreeSet<KeyCode>)> = VecDeque::new();
   let init = mapper.verif_snapshot();
-  ids.insert(format!("{:?}", init), 0); states.push(init);
+  ids.insert(h128(&format!("{:?}", init)), 0); states.push(init);
   q.push_back((0, BTreeSet::new())); seen.insert((0, BTreeSet::new()));
   // (sid, event index) -> (successor or -1 for panic, events, repeat)
   let mut table: HashMap<(usize, usize), (i64, Vec<Event>, ResultingRepeat)> = HashMap::new();
@@ -82,12 +90,13 @@ fn tabulate_one(job: &Job, maxstates: usize) -> Tabled {
               Ok(r) => {
                 let ns = mapper.verif_snapshot();
                 let key = format!("{:?}", ns);
-                let n = match ids.get(&key) {
+                let hk = h128(&key);
+                let n = match ids.get(&hk) {
                   Some(i) => *i as i64,
                   None => {
                     // a state whose text is this long has unboundedly growing lists (a change that never releases / keeps re-adding keys): not explored further
-                    if states.len() >= maxstates || key.len() > MAX_STATE_TEXT { truncated = true; -2 }
-                    else { let i = states.len(); ids.insert(key, i); states.push(ns); i as i64 }
+                    if states.len() >= maxstates || key.len() > MAX_STATE_TEXT || (states.len() >= 2000 && total.load(Relaxed) > budget) { truncated = true; -2 }
+                    else { total.fetch_add(1, Relaxed); let i = states.len(); ids.insert(hk, i); states.push(ns); i as i64 }
                   }
                 };
                 if n >= 0 { table.insert((sid, ei), (n, r.events, r.repeat)); }
@@ -112,11 +121,12 @@ fn tabulate_one(job: &Job, maxstates: usize) -> Tabled {
         Ok(evs) => {
           let ns = mapper.verif_snapshot();
           let key = format!("{:?}", ns);
-          let n = match ids.get(&key) {
+          let hk = h128(&key);
+          let n = match ids.get(&hk) {
             Some(i) => *i as i64,
             None => {
-              if states.len() >= maxstates || key.len() > MAX_STATE_TEXT { truncated = true; -2 }
-              else { let i = states.len(); ids.insert(key, i); states.push(ns); i as i64 }
+              if states.len() >= maxstates || key.len() > MAX_STATE_TEXT || (states.len() >= 2000 && total.load(Relaxed) > budget) { truncated = true; -2 }
+              else { total.fetch_add(1, Relaxed); let i = states.len(); ids.insert(hk, i); states.push(ns); i as i64 }
             }
           };
           ra.insert(sid, (n, evs));
@@ -126,31 +136,27 @@ fn tabulate_one(job: &Job, maxstates: usize) -> Tabled {
     }
     if !grew && q.is_empty() { break; }
   }
-  let mut lines = vec![];
+  // local 1-based ids become positions in the shard (base = lines already in it); lines are serialised at once (a Value tree per
+  // state would dominate memory)
+  let gid = |n: i64| -> i64 { if n >= 0 { n + 1 + base as i64 } else { n } };
+  let mut lines: Vec<String> = Vec::with_capacity(states.len());
   for (sid, s) in states.iter().enumerate() {
     let mut tr = vec![];
     for ei in 0..evlist.len() {
       tr.push(match table.get(&(sid, ei)) {
-        Some((n, evs, rep)) => json!({"n": if *n >= 0 { *n + 1 } else { *n }, "ev": jevs(evs), "rep": jrep(rep)}),
+        Some((n, evs, rep)) => json!({"n": gid(*n), "ev": jevs(evs), "rep": jrep(rep)}),
         None => json!({"n": 0, "ev": [], "rep": {"kind": "NoChange"}})
       });
     }
     let raj = match ra.get(&sid) {
-      Some((n, evs)) if *n >= 0 => json!({"n": *n + 1, "ev": jevs(evs)}),
+      Some((n, evs)) if *n >= 0 => json!({"n": gid(*n), "ev": jevs(evs)}),
       Some((n, _)) if *n == -1 => json!({"n": -1, "ev": []}),
       _ => json!({"n": 0, "ev": []})
     };
-    lines.push(json!({"st": jstate(s), "tr": tr, "ra": raj}));
+    lines.push(json!({"st": jstate(s), "tr": tr, "ra": raj, "l": li}).to_string());
   }
   let np = panics.len();
   Tabled { hdr: mk_hdr(jlayout(layout), states.len(), truncated, "".to_string(), panics), lines, states: states.len(), transitions, panics: np, truncated }
-}
-
-fn rebase(v: &mut Value, base: usize) {
-  // n > 0 are local 1-based ids; make them positions in the shard
-  let fix = |x: &mut Value| { if let Some(n) = x["n"].as_i64() { if n > 0 { x["n"] = json!(n + base as i64); } } };
-  if let Some(tr) = v["tr"].as_array_mut() { for t in tr.iter_mut() { fix(t); } }
-  fix(&mut v["ra"]);
 }
 
 pub fn cmd_tabulate(jobs_path: &str, outdir: &str, threads: usize) {
@@ -202,11 +208,10 @@ pub fn cmd_tabulate(jobs_path: &str, outdir: &str, threads: usize) {
       for (ji, job) in jobs.iter().enumerate() {
         if ji % threads != th { continue; }
         let cap = if total.load(std::sync::atomic::Ordering::Relaxed) > budget { std::cmp::min(maxstates, 2000) } else { maxstates };
-        let mut t = tabulate_one(job, cap);
-        total.fetch_add(t.states, std::sync::atomic::Ordering::Relaxed);
         let base = body.len();
+        let mut t = tabulate_one(job, cap, &total, budget, base, hdrs.len() + 1);
         if t.states > 0 { t.hdr["first"] = json!(base + 1); }
-        for mut l in t.lines.drain(..) { rebase(&mut l, base); l["l"] = json!(hdrs.len() + 1); body.push(l.to_string()); }
+        body.append(&mut t.lines);
         hdrs.push(t.hdr);
         nl += 1; st += t.states; tr += t.transitions; pn += t.panics; if t.truncated { tc += 1; }
         if body.len() >= shard_states || body.iter().map(|l| l.len()).sum::<usize>() > 96_000_000 { flush(&mut hdrs, &mut body, &mut nfiles); }
